@@ -289,6 +289,12 @@ class World:
         if sorted(exp_ident) != snap["ident"]:
             self.fail("contained-object-replaced", "the contained objects are not the objects that were added: %r vs %r"
                       % (snap["ident"], sorted(exp_ident)))
+        if self.r.get("keep_dangling"):
+            # what the library does with dangling references is not specified: the model follows the references the
+            # lanelets actually carry (they are input of the hanging-member rule, not part of the id pool)
+            for i, it in self.contained.items():
+                if it.kind == "lanelet":
+                    it.rs, it.rl = set(snap["refs"][i][0]), set(snap["refs"][i][1])
         exp_refs = {i: [sorted(it.rs), sorted(it.rl)] for i, it in self.contained.items() if it.kind == "lanelet"}
         if exp_refs != snap["refs"]:
             self.fail("lanelet-references-differ-from-model", "lanelet -> [signs, lights]: library %r, model %r" % (
@@ -447,6 +453,11 @@ class World:
         """A lanelet that is added again must not reference signs / lights that are not contained (what the library
         does with such dangling references is not specified): they are dropped through the public setters."""
         if it.kind != "lanelet" or self.contained.get(it.ids[0]) is it:
+            return
+        if self.r.get("keep_dangling"):
+            if any(self.used.get(x) != "sign" for x in it.obj.traffic_signs) or any(
+                    self.used.get(x) != "light" for x in it.obj.traffic_lights):
+                self.ctx.label("lanelet-added-with-dangling-references")
             return
         signs = {x for x in it.obj.traffic_signs if self.used.get(x) == "sign"}
         lights = {x for x in it.obj.traffic_lights if self.used.get(x) == "light"}
@@ -862,6 +873,9 @@ def history(uni_parts, op_parts, max_ops, n_uni=(1, 40), nets=False):
         "nets": st.lists(net_recipe(), min_size=1, max_size=4) if nets else st.just([]),
         "ops": long_list(st.one_of(*op_parts), max_ops),
         "probe": st.integers(3, 8),
+        # a removed lanelet keeps the sign / light references it had; in a quarter of the histories they are NOT dropped
+        # before it is added again (they may meanwhile name ids that are free or belong to other objects)
+        "keep_dangling": st.sampled_from([False, False, False, True]),
     })
 
 
